@@ -29,6 +29,10 @@ void DataArray::ioRead(DataType dtype, void *data, const NDSize &count, const ND
     boost::optional<double> opt_origin = expansionOrigin();
 
     if (poly.size() || opt_origin) {
+        if (dtype == DataType::String) {
+            // the caller's buffer holds std::string objects: doubles must not be read into it
+            hdf5::HErr(-1).check("Could not convert data");
+        }
         size_t data_esize = data_type_to_size(dtype);
         size_t nelms = check::fits_in_size_t(count.nelms(),
 			"Cannot apply polynom or origin transform. Buffer needed exceeds memory.");
